@@ -441,6 +441,13 @@ class G:
             self.names.append((n, ty))
             return "let %s := {%s};" % (n, body), stack
         if k == "opt":
+            if r.random() < 0.25:
+                # a binding made under ? (or a closure), and a read after it:
+                # either this is rejected, or the name must be bound on every path
+                n = self.fresh()
+                t, ty = self.push(stack, depth + 1)
+                self.names.append((n, ty))
+                return "(let %s := %s;)%s" % (n, t, r.choice(["?", "?", "*", "+"])), stack
             a, _ = self.neutral(stack, depth + 1)
             return "%s?" % self.paren(a), stack
         if k == "tick":
@@ -670,6 +677,7 @@ SEED_PROGRAMS_ASET = [
 ]
 
 SEED_PROGRAMS_CORE = [
+    "(2, let x := 1;?) x", "(let X := 1;)? X", "1 (let X := 2; X)?", "(let X := 1;)* X", "(1, 2) (let A := dup;)? A",
     "?match", "!match", "(|A B| A B ?match)", "(|A B| A (=~ B))", "?find", "?starts",
     "\"abc\" 1 2 3 4 drop drop drop drop 5 add", "\"abc\" 1 2 3 4 add add add add", "1 \"a\" [] 2 \"b\" 3 drop drop drop length",
     "[] \"x\" 1 2 3 4 5 drop drop drop drop add", "1 2 3 4 5 6 7 drop drop drop drop drop add",
